@@ -22,7 +22,7 @@ def sh(cmd, cwd=None, timeout=3600):
 def main():
     name, outdir, demo, regex, pkg = sys.argv[1:6]
     props = sys.argv[6:]
-    patch = os.path.join(outdir, "patch.diff")
+    patch = os.path.join(outdir, os.environ.get("PATCH_FILE", "patch.diff"))
     wt = "/tmp/confirm-" + name
     sh("git -C /repo worktree remove --force %s" % wt)
     rc, out = sh("git -C /repo worktree add --detach %s HEAD" % wt)
@@ -30,8 +30,8 @@ def main():
     meta = {"name": name, "breaks": props, "patch": "patch.diff", "demo": os.path.basename(demo), "ran": []}
     try:
         os.makedirs(os.path.join(wt, pkg), exist_ok=True)
-        shutil.copy(os.path.join(outdir, demo), os.path.join(wt, pkg, os.path.basename(demo)))
-        cmd = "go test -vet=off -count=1 -run '%s' ./%s/" % (regex, pkg)
+        shutil.copy(os.path.join(outdir, demo), os.path.join(wt, pkg, "demo_test.go" if not demo.endswith("_test.go") else os.path.basename(demo)))
+        cmd ="go test -vet=off -count=1 -run '%s' ./%s/" % (regex, pkg)
         rc0, out0 = sh(cmd, cwd=wt)
         meta["ran"].append({"cmd": cmd, "tree": "unchanged", "exit": rc0})
         rc, out = sh("git apply %s" % patch, cwd=wt)
